@@ -909,7 +909,7 @@ def t_la_generic(g):
         lits = [['<=', NUM(T, a), NUM(T, b)] if a <= b else NOT(['<=', NUM(T, a), NUM(T, b)]),
                 ['<', NUM(T, a), NUM(T, b)] if a < b else NOT(['<', NUM(T, a), NUM(T, b)])]
         return dict(args=[g.pick(lits)], coeffs=[])
-    if T == 'int' and g.coin(1, 3):
+    if T == 'int' and g.coin(1, 2):
         return la_tight(g)
     vars_ = (IV if T == 'int' else RV)[:g.i(1, 3)]
     k = g.i(2, 4)
